@@ -431,9 +431,9 @@ example : step .todo St.init (.set (.prop .due) (.val (.dur 5))) = .error .typeE
 theorem body_is_date (v : SE.Val) : Gen.BodiesSE.is_date v = v.isDate := Bodies.se_is_date_eq v
 
 theorem body_event_end (st en : Option SE.Val) (du : Option Int) :
-    Gen.BodiesSE.Event_end st en du = Bodies.liftSE (SE.endOf st en du) := Bodies.Event_end_eq st en du
+    Gen.BodiesSE.Event_end (start := st) (end_ := en) (duration := du) = Bodies.liftSE (SE.endOf st en du) := Bodies.Event_end_eq st en du
 
 theorem body_todo_end (st en : Option SE.Val) (du : Option Int) :
-    Gen.BodiesSE.Todo_end st en du = Bodies.liftSE (SE.endOf st en du) := Bodies.Todo_end_eq st en du
+    Gen.BodiesSE.Todo_end (start := st) (end_ := en) (duration := du) = Bodies.liftSE (SE.endOf st en du) := Bodies.Todo_end_eq st en du
 
 end ICal.C16
